@@ -2,6 +2,7 @@
 # runs all six quick checks for several VERIF_SEED values (default 2..9); prints only failures and a summary
 cd /verif || exit 2
 FROM=${1:-2}; TO=${2:-9}; BAD=0
+mkdir -p /tmp/ms_root && cp /verif/known_findings.json /tmp/ms_root/
 for s in $(seq $FROM $TO); do
   for p in C01 C03 C13 C15 C16 C17; do
     VERIF_ROOT=/tmp/ms_root VERIF_SEED=$s ./sim/target/release/a2lsim check $p quick > /tmp/ms_$p.log 2>&1; rc=$?
